@@ -107,7 +107,7 @@ pub fn plan_to_json(p: &crate::imgwr::LayoutPlan) -> Value {
     json!({"seed": p.seed.to_string(), "version": p.version, "shuffle_sectors": p.shuffle_sectors,
         "free_sectors": p.free_sectors, "slot_gaps": p.slot_gaps, "fragment_mini": p.fragment_mini,
         "v3_size_high_garbage": p.v3_size_high_garbage, "min_fat_sectors": p.min_fat_sectors,
-        "library_like_trees": p.library_like_trees})
+        "library_like_trees": p.library_like_trees, "extra_fat_sectors": p.extra_fat_sectors})
 }
 
 pub fn plan_from_json(v: &Value) -> Result<crate::imgwr::LayoutPlan, String> {
@@ -121,6 +121,7 @@ pub fn plan_from_json(v: &Value) -> Result<crate::imgwr::LayoutPlan, String> {
         v3_size_high_garbage: v["v3_size_high_garbage"].as_bool().unwrap_or(false),
         min_fat_sectors: v["min_fat_sectors"].as_u64().unwrap_or(0) as u32,
         library_like_trees: v["library_like_trees"].as_bool().unwrap_or(false),
+        extra_fat_sectors: v["extra_fat_sectors"].as_u64().unwrap_or(0) as u32,
     })
 }
 
@@ -239,4 +240,6 @@ pub struct Outcome {
     pub harness_error: Option<String>,
     /// for enumerating checks: the explicit single run that failed
     pub replay_case: Option<Case>,
+    /// indices of ops the library refused (NotFound / AlreadyExists / InvalidInput)
+    pub refused_ops: Vec<usize>,
 }
